@@ -256,7 +256,9 @@ def _desc_counts(query: Callable, lexid: int) -> str:
             count[pos] = 1
         else:
             count[pos] += 1
-    subcounts = ', '.join(f'{pos}: {count[pos]}' for pos in sorted(count))
+    # a synset's part of speech is optional (None)
+    subcounts = ', '.join(f'{pos}: {count[pos]}'
+                          for pos in sorted(count, key=lambda pos: pos or ''))
     return f'{sum(count.values()):>6} ({subcounts})'
 
 
